@@ -115,6 +115,12 @@ CHECKS = {
         "text": "union / least_upper_bound / pseudo_join / widen must contain every operand, intersection every common member; eval(n), min/max (signed and unsigned), cardinality, solution(v) for every v, is_empty/is_integer/is_top must agree exactly with the member set computed from (bits, stride, lb, ub). Enumerated over all canonical intervals of small width, generated with sampled members at 8-64 bits.",
         "note": "Off-lattice upper bounds (writable by a caller, meaning undocumented) are outside the oracle; widen is only checked for containment.",
     },
+    "C23": {
+        "level": "exploration",
+        "technique": "bounded enumeration + property-based testing: DiscreteStridedIntervalSets and region ValueSets over canonical small-width intervals, member-set oracle per member / per region",
+        "text": "Every operation of DiscreteStridedIntervalSet (arithmetic, bitwise, shifts, division, concat, extract, extensions, comparisons, union / intersection / widen, collapse / normalize, eval / cardinality) over sets of <= 2 width-2 intervals against every such set / interval / integer is enumerated (thorough: all, quick: a seed-selected eighth), sets of <= 3 members at widths 3-8 are generated; ValueSets with 1-3 regions are generated with their operations (+, -, %, & incl. the mask special cases, vs - vs, union / intersection / widen with value sets and intervals, full extract, ==, !=, queries). The result must contain op(x, y) for every member x and y (per region for value sets), comparisons every truth value that occurs, intersections the common members; queries must agree with the member sets.",
+        "note": "Placeholder methods (ValueSet.concat / reverse / LShR / partial extract) are outside the oracle; failures reproducible on a single member interval are attributed to C21/C22; operations that reject an operand type (ClaripyVSAOperationError) count as declined.",
+    },
     "C24": {
         "level": "exploration",
         "technique": "property-based testing: generated operation trees over SI-annotated variables, ALL assignments inside the intervals enumerated (numpy) as the oracle for BackendVSA's abstract value and SolverVSA's answers",
